@@ -301,8 +301,14 @@ func (e *Engine) VerifyFunction(key string) (res *FnResult) {
 			// frames and callee preconditions underpin every use of a contract (and the callee's own safety)
 			o.Props = ct.Props
 		default:
+			// a clause about freshness / aliasing of results is what callers' frame reasoning rests on
+			aliasing := strings.Contains(o.Text, "fresh(") || strings.Contains(o.Text, "sameslice(") || strings.Contains(o.Text, "SameSlice(")
 			var ps []string
 			for _, p := range ct.Props {
+				if p == "C16" && aliasing {
+					ps = append(ps, p)
+					continue
+				}
 				if p != "C03" && p != "C16" && p != "C17" {
 					ps = append(ps, p)
 				}
